@@ -642,11 +642,14 @@ func (runInfo *runInfoStruct) invokeLetsExpr(expr *ast.LetsExpr) {
 			runInfo.rv = runInfo.rv.Elem()
 		}
 		if i < len(expr.LHSS) {
+			// the value of the expression is the value that was assigned
+			assigned := runInfo.rv
 			runInfo.expr = expr.LHSS[i]
 			runInfo.invokeLetExpr()
 			if runInfo.err != nil {
 				return
 			}
+			runInfo.rv = assigned
 		}
 
 	}
